@@ -1,5 +1,6 @@
 (* C13 - Read-only operations on a shared packet are safe to run concurrently (partial). *)
-From MQ Require Import Model.Conc Proofs.ConcP Model.Render.
+From MQ Require Import Model.Conc Proofs.ConcP Model.Render Model.ReadOnlyApi gen.GenEffects gen.SyncEffects.
+From Coq Require Import String.
 From Coq Require Import List. Import ListNotations.
 
 (* What is proved: on a shared-memory machine without synchronisation
@@ -19,14 +20,29 @@ Theorem C13_schedules : forall (loc val out : Type) (loc_eqb : loc -> loc -> boo
 Proof. exact read_only_schedules. Qed.
 Print Assumptions C13_schedules.
 
-(* The premise for the read-only API: in the model WriteTo, String, Dump,
-   WellFormed and the accessors are functions of the packet value (C11);
-   that the Go methods likewise store nothing into the packet, a package
-   variable or memory reachable from their arguments is NOT proved here.
-   It is decided on the implementation: the harness built with the Go race
-   detector runs 8 goroutines of random read-only operation mixes on
-   shared packets of every type (including a will message shared between
-   a CONNECT and direct use) and ReadPacket on distinct streams, and
-   compares every goroutine's bytes with the sequential ones. The Go
-   memory model, the runtime and the standard library are outside the
-   model. *)
+(* The premise for the read-only API, decided on the source on every run by
+   the write-set analysis of tools/gosync (effects.go): for every method of
+   the read-only API (Model/ReadOnlyApi.v: WriteTo, String, dump, WellFormed,
+   Error, the accessors, fill, width of every exported type - 188 methods)
+   it follows every path, in-package call, closure and interface dispatch
+   and lists the memory the method may write that the call did not allocate
+   itself - the receiver and what it points to, package-level variables,
+   parameters (the writer handed to WriteTo/dump is the caller's own) - and
+   goroutines, channel operations and calls it cannot resolve.  The list
+   regenerated from the current source is empty, and no function of the
+   package at all writes a package-level variable or keeps state in a pool,
+   cache or goroutine.  So the Go methods are threads of the shape
+   C13_schedules quantifies over.  The analysis is flow-insensitive and
+   over-approximates aliasing (trusted, see DESIGN.md section 5). *)
+Theorem C13_api_writes_nothing :
+  g_readonly_effects = [] /\ g_global_effects = [] /\
+  forallb (fun m => existsb (String.eqb m) g_readonly_methods) readonly_api = true.
+Proof. exact (conj sync_readonly_effects (conj sync_no_global_state sync_readonly_methods)). Qed.
+Print Assumptions C13_api_writes_nothing.
+
+(* Not proved: the Go memory model, the runtime and the standard library
+   (fmt, io) are outside the model; the harness built with the Go race
+   detector runs 8 goroutines of random read-only operation mixes on shared
+   packets of every type (including a will message shared between a CONNECT
+   and direct use) and ReadPacket on distinct streams, and compares every
+   goroutine's bytes with the sequential ones. *)
